@@ -397,7 +397,11 @@ func (o *Obligation) Script(withModel bool) string {
 		})
 	}
 	specText, rec := x.specDefs()
-	unf := x.unfoldings(all, rec, 2)
+	fuel := specFuel()
+	if x.fc != nil && x.fc.Fuel > 0 && os.Getenv("GOWP_FUEL") == "" {
+		fuel = x.fc.Fuel
+	}
+	unf := x.unfoldings(all, rec, fuel)
 	all2 := append(append([]*Term(nil), all...), unf...)
 	mf := x.mathFacts(all2)
 	mf = append(mf, x.pureFacts(all2)...)
@@ -881,4 +885,17 @@ func hintOf(n string) string {
 		n = n[:k]
 	}
 	return n
+}
+
+// specFuel: rounds of ground unfolding of recursive spec functions (default 2;
+// GOWP_FUEL overrides, for experiments).
+func specFuel() int {
+	if v := os.Getenv("GOWP_FUEL"); v != "" {
+		n := 0
+		fmt.Sscanf(v, "%d", &n)
+		if n > 0 {
+			return n
+		}
+	}
+	return 2
 }
